@@ -179,11 +179,18 @@ def step (st : St) (op implObs : String) : St × String × List String :=
       match requestBlocks s q with
       | none => ({ st with hist := hist }, line "panic" [] [] none s, afterChecks st hist itoks)
       | some (s', reqs) =>
-        let skipped := s'.pending.length - s.pending.length - reqs.length
+        let skipped := s.remaining.length - s'.remaining.length - reqs.length
         let st' := addTags { st with s := s', hist := hist }
-          ((if skipped > 0 then ["branch:request-done-block-to-pending"] else []) ++
+          ((if skipped > 0 then ["branch:request-skips-received-block", "nontrivial"] else []) ++
            (if reqs.length > 0 ∧ s'.remaining.length > 0 then ["branch:request-queue-full"] else []))
-        (st', line "-" reqs [] none s', afterChecks st hist itoks)
+        -- C10: an entry of the request window for a block that has already arrived is never removed again
+        -- (its arrival is behind us); enough of them and nothing is ever asked of this peer any more
+        let ipend := natList (kvStr itoks "pend")
+        let idone := natList (kvStr itoks "done")
+        let phantom := ipend.filter idone.contains
+        let c10 := if phantom.isEmpty then [] else
+          [s!"C10 received-block-counted-as-outstanding-request blocks={showNatList phantom}"]
+        (st', line "-" reqs [] none s', afterChecks st hist itoks ++ c10)
     | "cancel" =>
       match cancelPending s with
       | none => (st, line "panic" [] [] none s, afterChecks st st.hist itoks)
